@@ -23,6 +23,7 @@ type WriteBufItem[K comparable, V any] struct {
 	rechedule  bool
 	fromNVM    bool
 	hash       uint64
+	done       chan struct{} // closed when a WAIT marker's batch has been applied
 }
 
 type MetaData[K comparable, V any] struct {
